@@ -36,6 +36,9 @@ func runC20(c *Ctx) {
 		return
 	}
 	info := pk.TypesInfo
+	// the shutdown walk reaches every worker of the snapshot: a worker that already returned is skipped, not the rest of the list
+	checkLoopVisitsAll(r, p, pkg, "OrderedDaemon", "stopWorkers", "the shutdown order")
+	checkExplicitOrderHonoured(r, p, pkg, "OrderedDaemon", "BackgroundWorker")
 	callSuffix := func(suffix string) func(ast.Node) bool {
 		return func(n ast.Node) bool {
 			cl, ok := n.(*ast.CallExpr)
